@@ -382,8 +382,11 @@ func checkC05(c *Ctx) {
 			}
 			n++
 			facts := fr.At(r)
-			failedVerify := notNilOf(facts, func(k string) bool { return strings.HasPrefix(k, kBaseVer) }) ||
-				falseOf(facts, func(k string) bool { return strings.Contains(k, "signedOnlyBy(") })
+			failed := func(_ *Flow, fs FactSet) bool {
+				return notNilOf(fs, func(k string) bool { return strings.HasPrefix(k, kBaseVer) }) ||
+					falseOf(fs, func(k string) bool { return strings.Contains(k, "signedOnlyBy(") })
+			}
+			failedVerify := failed(fr, facts) || helperVerdictImplies(fr, facts, false, failed, 0)
 			if !failedVerify {
 				bad = append(bad, p.Pos(r.Pos()))
 			}
@@ -415,7 +418,7 @@ func checkC05(c *Ctx) {
 		uses := false
 		for _, e := range successExits(fv, 3) {
 			for _, lf := range leaves(fv, retValue(e.Ret, 1), e.Ret) {
-				if fv.K.Key(lf.Val) == kQCView+"(hs.SyncInfo).QC(p1)#0)" {
+				if lf.KeyIn(fv) == kQCView+"(hs.SyncInfo).QC(p1)#0)" {
 					uses = true
 				}
 			}
